@@ -282,13 +282,16 @@ pub fn run(rep: &mut Report, driver: &str, workers: usize, thorough: bool, seed:
         });
     }
     cases.push(Case { op: "from:option".into(), arg: "(nonev)".into(), impl_out: enc_value(&Value::from(None::<Value>)), expect: Some("(none)".into()), tag: "from-option" });
+    // 7. scalar `From<T> for Value` and back through `TryFrom<Value> for T`: the original, bit for bit
+    //    (the expected image is built with the variant constructor, never through the conversion under test)
+    scalar_roundtrips(&mut cases, &mut rng, thorough);
 
     // model
     let reqs: Vec<String> = cases.iter().map(|c| format!("conv\t{}\t{}", c.op.replace("hmap", "map"), c.arg)).collect();
     let replies = par_batch(driver, workers, &reqs);
     let mut sr = StreamReport::new(
         "conversions",
-        "TryFrom<Value> for each of the 10 integer types over every integer in [-70000, 70000] (8/16-bit targets), every width boundary +-2 and random i128; From->TryFrom round trips (all 8/16-bit values, boundaries for wider types incl. usize); every boundary-pool Value as the source of 25 extractions; lists/maps of length <= 3 (thorough 4) over 7 element kinds with a non-convertible element at each position (BTreeMap and HashMap targets); f32 specials and random bit patterns; Option/Vec/Map into Value. Predicates on the real code: in range <=> Ok(same number) else NumericOverflow; wrong kind => UnexpectedValueType carrying the value; round trips return the original",
+        "TryFrom<Value> for each of the 10 integer types over every integer in [-70000, 70000] (8/16-bit targets), every width boundary +-2 and random i128; From->TryFrom round trips (all 8/16-bit values, boundaries for wider types incl. usize); every boundary-pool Value as the source of 25 extractions; lists/maps of length <= 3 (thorough 4) over 7 element kinds with a non-convertible element at each position (BTreeMap and HashMap targets); f32 specials and random bit patterns; Option/Vec/Map into Value; From<T> -> TryFrom<Value> round trips of every scalar kind (f64 bit patterns, strings incl. &str, decimals at every scale, booleans, date-times and durations down to the nanosecond incl. the extremes) alone and inside Vec / BTreeMap / HashMap. Predicates on the real code: in range <=> Ok(same number) else NumericOverflow; wrong kind => UnexpectedValueType carrying the value; round trips return the original",
         false,
     );
     for (c, m) in cases.iter().zip(replies.iter()) {
@@ -307,4 +310,101 @@ pub fn run(rep: &mut Report, driver: &str, workers: usize, thorough: bool, seed:
         }
     }
     rep.streams.push(sr);
+}
+
+fn guarded(f: impl FnOnce() -> String) -> String {
+    catch_unwind(AssertUnwindSafe(f)).unwrap_or_else(|_| "PANIC".into())
+}
+
+/// one scalar kind: `Value::from(x)`, `T::try_from(that)`, and the same through `Vec<T>` and `BTreeMap / HashMap<String, T>`
+fn rt_kind<T: Clone + Into<Value> + TryFrom<Value, Error = reval::Error>>(cases: &mut Vec<Case>, kind: &str, xs: &[T], img: impl Fn(&T) -> Value) {
+    for x in xs {
+        let want = img(x);
+        let from = guarded(|| enc_value(&x.clone().into()));
+        cases.push(Case { op: format!("from:{}", kind), arg: enc_value(&want), impl_out: from, expect: Some(enc_value(&want)), tag: "from-scalar" });
+        let back = guarded(|| ok_or_err(T::try_from(x.clone().into()).map(|y| enc_value(&img(&y)))));
+        cases.push(Case { op: format!("try:{}", kind), arg: enc_value(&want), impl_out: back, expect: Some(format!("(ok {})", enc_value(&want))), tag: "roundtrip-scalar" });
+    }
+    // collections of the kind, in chunks of three (order kept, every element converted)
+    for ch in xs.chunks(3) {
+        let want = Value::Vec(ch.iter().map(&img).collect());
+        let from = guarded(|| enc_value(&Value::from(ch.to_vec())));
+        cases.push(Case { op: "from:vec".into(), arg: enc_value(&want), impl_out: from, expect: Some(enc_value(&want)), tag: "from-vec-scalar" });
+        let back = guarded(|| ok_or_err(Vec::<T>::try_from(Value::from(ch.to_vec())).map(|ys| enc_value(&Value::Vec(ys.iter().map(&img).collect())))));
+        cases.push(Case { op: format!("try:vec:{}", kind), arg: enc_value(&want), impl_out: back, expect: Some(format!("(ok {})", enc_value(&want))), tag: "roundtrip-vec-scalar" });
+        let keys = ["k", "", "K"];
+        let bm: BTreeMap<String, T> = ch.iter().enumerate().map(|(i, x)| (keys[i].to_string(), x.clone())).collect();
+        let wantm = Value::Map(bm.iter().map(|(k, x)| (k.clone(), img(x))).collect());
+        let backb = guarded(|| ok_or_err(BTreeMap::<String, T>::try_from(Value::from(bm.clone())).map(|m| enc_value(&Value::Map(m.iter().map(|(k, y)| (k.clone(), img(y))).collect())))));
+        cases.push(Case { op: format!("try:map:{}", kind), arg: enc_value(&wantm), impl_out: backb, expect: Some(format!("(ok {})", enc_value(&wantm))), tag: "roundtrip-map-scalar" });
+        let hm: HashMap<String, T> = bm.clone().into_iter().collect();
+        let backh = guarded(|| ok_or_err(HashMap::<String, T>::try_from(Value::from(hm.clone())).map(|m| enc_value(&Value::Map(m.iter().map(|(k, y)| (k.clone(), img(y))).collect())))));
+        cases.push(Case { op: format!("try:hmap:{}", kind), arg: enc_value(&wantm), impl_out: backh, expect: Some(format!("(ok {})", enc_value(&wantm))), tag: "roundtrip-map-scalar" });
+    }
+}
+
+fn scalar_roundtrips(cases: &mut Vec<Case>, rng: &mut Rng, thorough: bool) {
+    let n = if thorough { 20000 } else { 1500 };
+    // f64: specials and random bit patterns (NaN payloads are canonicalised by the codec on both sides)
+    let mut fs: Vec<f64> = [0u64, 1 << 63, 1, 0x000f_ffff_ffff_ffff, 0x0010_0000_0000_0000, 0x7fef_ffff_ffff_ffff, 0x7ff0_0000_0000_0000, 0xfff0_0000_0000_0000, 0x7ff8_0000_0000_0000, 0x3ff0_0000_0000_0000, 0x3fb9_9999_9999_999a, 0x4340_0000_0000_0000, 0x4340_0000_0000_0001]
+        .iter()
+        .map(|b| f64::from_bits(*b))
+        .collect();
+    for _ in 0..n {
+        fs.push(f64::from_bits(rng.next_u64()));
+    }
+    rt_kind(cases, "f64", &fs, |x| Value::Float(*x));
+    // strings: empty, quotes, escapes, control and non-BMP characters, look-alikes, long
+    let mut ss: Vec<String> = ["", " ", "a", "A", "a\"b", "a\\b", "\n", "\r\n", "\t", "\0", "\u{7f}", "é", "e\u{301}", "ß", "İ", "\u{1F600}", "\u{10FFFF}", "\u{feff}x", " x ", "i1", "none", "true"].iter().map(|s| s.to_string()).collect();
+    ss.push("x".repeat(5000));
+    for _ in 0..n / 10 {
+        let len = rng.below(12);
+        ss.push((0..len).map(|_| char::from_u32((rng.next_u64() % 0x11_0000) as u32).unwrap_or('\u{fffd}')).collect());
+    }
+    rt_kind(cases, "str", &ss, |x| Value::String(x.clone()));
+    // decimals: every scale of a few mantissas (1.0 vs 1.00 are different representations), the extremes, negative zero
+    let mut ds: Vec<Decimal> = vec![Decimal::MAX, Decimal::MIN, Decimal::ZERO];
+    for m in [0u128, 1, 10, 100, 123456789, (1u128 << 96) - 1, 1u128 << 64, 5, 25] {
+        for sc in [0u32, 1, 2, 3, 14, 27, 28] {
+            for neg in [false, true] {
+                if let Some(x) = mk_dec(neg, m, sc) {
+                    ds.push(x);
+                }
+            }
+        }
+    }
+    for _ in 0..n / 4 {
+        if let Some(x) = mk_dec(rng.chance(1, 2), rng.u128() >> (32 + rng.below(96) as u32), rng.below(29) as u32) {
+            ds.push(x);
+        }
+    }
+    rt_kind(cases, "dec", &ds, |x| Value::Decimal(*x));
+    rt_kind(cases, "bool", &[true, false], |x| Value::Bool(*x));
+    // date-times: the extremes, the epoch +-1 ns, every sub-second granularity (ns, us, ms), random instants
+    let mut ts: Vec<DateTime<Utc>> = vec![DateTime::<Utc>::MIN_UTC, DateTime::<Utc>::MAX_UTC, DateTime::<Utc>::UNIX_EPOCH];
+    for (secs, nanos) in [(0i64, 1u32), (-1, 999_999_999), (0, 999), (0, 1_000), (0, 999_999), (0, 1_000_000), (0, 123_456_789), (1_438_226_773, 123_456_789), (1_438_226_773, 250_000_000), (-62_135_596_800, 0), (253_402_300_799, 999_999_999), (4_102_444_800, 500)] {
+        ts.push(DateTime::from_timestamp(secs, nanos).unwrap());
+    }
+    for _ in 0..n / 2 {
+        let secs = (rng.next_u64() % 16_000_000_000_000) as i64 - 8_000_000_000_000;
+        if let Some(t) = DateTime::from_timestamp(secs, (rng.next_u64() % 1_000_000_000) as u32) {
+            ts.push(t);
+        }
+    }
+    rt_kind(cases, "dt", &ts, |x| Value::DateTime(*x));
+    // durations: the extremes, +-1 ns, sub-millisecond parts, random
+    let mut us: Vec<TimeDelta> = vec![TimeDelta::MAX, TimeDelta::MIN, TimeDelta::zero(), TimeDelta::nanoseconds(1), TimeDelta::nanoseconds(-1), TimeDelta::microseconds(1), TimeDelta::milliseconds(-1), TimeDelta::nanoseconds(1_000_000_001), TimeDelta::new(-5, 999_999_999).unwrap(), TimeDelta::new(86_400, 123_456_789).unwrap()];
+    for _ in 0..n / 2 {
+        let secs = (rng.next_u64() % 18_000_000_000_000_000) as i64 - 9_000_000_000_000_000;
+        if let Some(t) = TimeDelta::new(secs, (rng.next_u64() % 1_000_000_000) as u32) {
+            us.push(t);
+        }
+    }
+    rt_kind(cases, "dur", &us, |x| Value::Duration(*x));
+    // `From<&str>`
+    for x in ss.iter().take(40) {
+        let want = Value::String(x.clone());
+        let from = guarded(|| enc_value(&Value::from(x.as_str())));
+        cases.push(Case { op: "from:str".into(), arg: enc_value(&want), impl_out: from, expect: Some(enc_value(&want)), tag: "from-scalar" });
+    }
 }
